@@ -57,16 +57,28 @@ fn run(ctx: &mut Ctx) {
         let nf = 1 + rng.usize(3);
         let mut tags = vec![];
         for _ in 0..nf { let f = *rng.pick(&faults::FAULTS); if faults::inject(rng, &mut prog, f) { tags.push(f); } }
+        // in a sixth of the programs every label gets a multi-byte (caseless) suffix: spans are byte ranges, names have characters
+        let wide_labels = rng.chance(1, 6);
+        if wide_labels {
+            let suffix = *rng.pick(&["文", "é", "字列", "ß9"]);
+            for st in prog.stmts.iter_mut() {
+                for l in st.labels.iter_mut() { l.push_str(suffix); }
+                match &mut st.k { K::External(l) | K::Fill(PcOp::Label(l)) => l.push_str(suffix), k => if let Some((PcOp::Label(l), _)) = k.pc_operand_mut() { l.push_str(suffix); } }
+            }
+        }
         let a = analyze(&prog.stmts);
         let style = Style::random(rng);
-        let r = render(rng, &prog.stmts, &style);
+        let mut r = render(rng, &prog.stmts, &style);
+        // a byte order mark in front of the text (files saved by some editors): whatever the outcome, spans must refer to this text
+        let bom = rng.chance(1, 12);
+        if bom { r.text.insert(0, '\u{feff}'); }
         ctx.eval();
         let mut labels: Vec<String> = prog.stmts.iter().flat_map(|s| s.labels.clone()).collect();
         for s in &prog.stmts { match &s.k { K::External(l) | K::Fill(PcOp::Label(l)) => labels.push(l.clone()), k => if let Some((PcOp::Label(l), _)) = k.pc_operand() { labels.push(l.clone()); } } }
         for debug in [true, false] {
             let case = || Json::obj().set("source", r.text.as_str()).set("debug", debug).set("violated", Json::Arr(a.faults.iter().map(|f| Json::from(f.as_str())).collect()));
             let Some(res) = ctx.no_panic("assemble", &case, || crate::asmutil::asm(&r.text, debug)) else { return };
-            if let Ok(Err(e)) = res { ctx.nontrivial_str(&format!("{}{:?}", r.text, e.kind)); check_err(ctx, &e, Some(&r.text), &labels, &case, "asm"); if ctx.want_sample() && r.text.len() < 200 { ctx.sample(Json::obj().set("source", r.text.as_str()).set("error", format!("{:?}", e.kind)).set("span", format!("{:?}", e.span))); } }
+            if let Ok(Err(e)) = res { ctx.nontrivial_str(&format!("{}{:?}", r.text, e.kind)); check_err(ctx, &e, Some(&r.text), &labels, &case, "asm"); if wide_labels { ctx.count("asm.errors.with-multibyte-labels"); } if bom { ctx.count("asm.errors.with-byte-order-mark"); } if ctx.want_sample() && r.text.len() < 200 { ctx.sample(Json::obj().set("source", r.text.as_str()).set("error", format!("{:?}", e.kind)).set("span", format!("{:?}", e.span))); } }
         }
     });
     let n = ctx.tier.pick(1_500, 100_000);
@@ -97,6 +109,6 @@ fn guard(m: &Merged, _t: Tier) -> Vec<String> {
     let mut out = vec![];
     for k in ["UndetAddrLabel", "UndetAddrStmt", "UnclosedOrig", "UnopenedOrig", "OverlappingOrig", "OverlappingLabels", "BlockInIO", "OverlappingBlocks", "OffsetNewErr", "OffsetExternal", "CouldNotFindLabel"] { need(m, &mut out, &format!("asm.errors.{k}"), 5); }
     for k in ["link.sets.debug", "link.sets.nodebug", "link.sets.mixed"] { need(m, &mut out, k, 20); }
-    need(m, &mut out, "link.errors.OverlappingBlocks", 20); need(m, &mut out, "link.errors.OverlappingLabels", 20); need(m, &mut out, "label-spans.checked", 500);
+    need(m, &mut out, "link.errors.OverlappingBlocks", 20); need(m, &mut out, "link.errors.OverlappingLabels", 20); need(m, &mut out, "label-spans.checked", 500); need(m, &mut out, "asm.errors.with-multibyte-labels", 100);
     out
 }
